@@ -3,3 +3,4 @@ import RSVerif.Properties.C10
 #print axioms RS.oneshot_decode_eq
 #print axioms RS.oneshot_degenerate
 #print axioms RS.oneshot_errors_truthful
+#print axioms RS.source_oneshot_is_streaming
